@@ -212,3 +212,45 @@ func TestFindingF16FMAOverflowInf(t *testing.T) {
 		t.Errorf("x*x + -Inf = %s, want -Inf", z.Text('g', -1))
 	}
 }
+
+// F17: GobEncode computed the mantissa word count in uint32: for a precision within 18 of
+// MaxPrec the count wrapped to 0 and a finite value was encoded without its mantissa.
+func TestFindingF17GobEncodeMaxPrec(t *testing.T) {
+	for _, p := range []uint{MaxPrec, MaxPrec - 17, MaxPrec - 18} {
+		x := new(Decimal).SetPrec(p).SetInt64(15)
+		b, err := x.GobEncode()
+		if err != nil {
+			t.Fatal(err)
+		}
+		var y Decimal
+		if err := y.GobDecode(b); err != nil {
+			t.Errorf("prec %d: round trip fails: %v (encoding has %d bytes)", p, err, len(b))
+			continue
+		}
+		if y.Cmp(x) != 0 || y.Prec() != p {
+			t.Errorf("prec %d: got %v (prec %d), want %v", p, &y, y.Prec(), x)
+		}
+	}
+}
+
+// F18: SetFloat64/SetFloat incremented the precision temporarily with z.prec++, which wraps to 0
+// at MaxPrec: the receiver came back with an unrelated small precision and an inexact value.
+// (Values >= 1 are used so that the scaling is an exact multiplication, which is cheap at any
+// precision; a division at MaxPrec allocates a quotient of MaxPrec digits.)
+func TestFindingF18SetFloatMaxPrec(t *testing.T) {
+	for _, f := range []float64{1e300, 3 * (1 << 60), math.MaxFloat64} {
+		z := new(Decimal).SetPrec(MaxPrec).SetFloat64(f)
+		if z.Prec() != MaxPrec {
+			t.Errorf("SetFloat64(%g): precision changed from MaxPrec to %d", f, z.Prec())
+		}
+		want, _ := new(big.Float).SetFloat64(f).Int(nil)
+		got, acc := z.Int(nil)
+		if got.Cmp(want) != 0 || acc != Exact || z.Acc() != Exact {
+			t.Errorf("SetFloat64(%g) at MaxPrec is not exact: %s (acc %v)", f, z.Text('g', 40), z.Acc())
+		}
+		z2 := new(Decimal).SetPrec(MaxPrec).SetFloat(new(big.Float).SetFloat64(f))
+		if z2.Prec() != MaxPrec || z2.Cmp(z) != 0 {
+			t.Errorf("SetFloat(%g): precision %d, value %s", f, z2.Prec(), z2.Text('g', 40))
+		}
+	}
+}
